@@ -754,6 +754,16 @@ impl Template {
 
                     // reset standalone statement marker
                     trim_line_required = false;
+                } else if omit_pro_ws
+                    && span.start() != prev_end
+                    && rule != Rule::template
+                    && rule != Rule::raw_text
+                    && rule != Rule::raw_block_text
+                {
+                    // the whitespace after a `~}}` tag is dropped as a whole, and with it
+                    // the line a standalone tag ends: nothing is left to trim from the
+                    // text that follows the next tag
+                    trim_line_required = false;
                 }
 
                 let (line_no, col_no) = span.start_pos().line_col();
